@@ -96,6 +96,7 @@ func VX_C19_ProxyCall(args []int) {
 		fm, err := vxParse(bconn.writes[0])
 		vxAssert(err == nil && fm.Mtype() == erpc.TypeCall, "forwarded frame is a CALL")
 		vxAssert(fm.ServiceMethod() == "/back/end", "same service method")
+		vxAssert(fm.BodyCodec() == 's', "the call is forwarded with the caller's body codec (the backend decodes the body as it would have on a direct call)")
 		fb := vxBodyOf(fm)
 		vxAssert(len(fb) == nBody, "same body length")
 		for k := range body {
@@ -199,6 +200,7 @@ func VX_C19_ProxyPush(args []int) {
 		if bconn.nWrites() == 1 {
 			fm, err := vxParse(bconn.writes[0])
 			vxAssert(err == nil && fm.Mtype() == erpc.TypePush && fm.ServiceMethod() == "/back/push", "forwarded push: type and method")
+			vxAssert(err != nil || fm.BodyCodec() == 's', "the push is forwarded with the sender's body codec")
 			fb := vxBodyOf(fm)
 			vxAssert(len(fb) == nBody, "forwarded push: body length")
 			for k := range body {
